@@ -148,6 +148,20 @@ def campaign(c):
                     bad(c, 'netbios-encoding', 'NetBIOS name does not decode to the padded name and suffix', rep)
             c.case(('nb', ln, suffix), dict(kind='netbios', len=ln) if suffix == 0 and ln % 6 == 0 else None)
     # every one-byte name and the names with a conventional meaning (wildcard, browser election, ...)
+    # names made long by padding: trailing / leading spaces and NULs count towards the 15-byte limit like any other byte
+    for core_name in (b'', b'A', b'WORKGROUP', b'ACCOUNTING12345'):
+        for pad in (b' ', b'\x00'):
+            for total in (14, 15, 16, 17, 18, 32):
+                if total < len(core_name): continue
+                for name in (core_name + pad * (total - len(core_name)), pad * (total - len(core_name)) + core_name):
+                    res, req = call_both(c, [['netbios::name::encode', 'suffix=u8:32', '-=' + s(name)]])
+                    if len(name) > 15:
+                        if not res[0].startswith('err'): bad(c, 'netbios-long', 'a %d-byte NetBIOS name (%r) was not refused' % (len(name), name), dict(req=req))
+                    else:
+                        f = kv(parse(c, 'netbios', val_bytes(res[0]) or b''))
+                        if f.get('name') != sh_hex(name + b' ' * (15 - len(name)) + b' '):
+                            bad(c, 'netbios-encoding', 'NetBIOS name %r does not decode to the padded name and suffix' % name, dict(req=req))
+                    c.case(('nbpad', name), None)
     special = [bytes([x]) for x in range(256)] + [b'**', b'*SMBSERVER', b'WORKGROUP', b'\x01\x02__MSBROWSE__\x02', b'*' * 15, b'* ', b' *', b'*\x00']
     for name in special:
         for suffix in ([0, 0x20] if len(name) == 1 else [0, 0x1d, 0x20]):
